@@ -162,9 +162,13 @@ class RelativeSequence(AbstractSequence):
         for channel in open_messages.keys():
             for key in open_messages[channel].keys():
                 note_list = open_messages[channel].get(key, [])
-                for msg in note_list:
-                    if msg in messages_normalized:
-                        messages_normalized.remove(msg)
+
+                # Only the first of the still open note-ons was kept, it is the last occurrence of that message
+                if len(note_list) > 0:
+                    for index in range(len(messages_normalized) - 1, -1, -1):
+                        if messages_normalized[index] is note_list[0]:
+                            del messages_normalized[index]
+                            break
 
         self._messages = messages_normalized
 
